@@ -398,25 +398,34 @@ def inv5(rep, mod, table, rule='INV-5'):
                       'VerifyingBase does not override it with a _verify() '
                       'check' % name, construct='override', node=vb)
             continue
-        cfg = cfg_of(f)
-        dele = nodes_with(cfg, 'LookupBaseFallback.%s(self, $$a)' % name)
-        ver = pred_of('self._verify()')
-        ok = bool(dele) and all(cfg.dominated_by(n, ver) for n in dele)
-        # delegation passes the parameters through unchanged
-        okargs = True
-        for n in dele:
-            for c, env in find_all(header_expr(n),
-                                   'LookupBaseFallback.%s(self, $$a)' % name):
-                got = [norm_src(a) for a in env.get('a', [])]
-                okargs = okargs and got == shared.params(f)[1:]
-        rets = [n for n in walk_local(f) if isinstance(n, ast.Return)]
-        okret = all(r.value is not None and
-                    match('LookupBaseFallback.%s(self, $$a)' % name, r.value)
-                    is not None for r in rets) and bool(rets)
-        rep.check(rule, site, ok and okargs and okret,
-                  '_verify() dominates the delegation to LookupBaseFallback.%s '
-                  '(dominates=%s, args-unchanged=%s, returns-delegate=%s)'
-                  % (name, ok, okargs, okret), construct='verify-first', node=f)
+        from ..sympath import summaries as _S, normal as _N
+        from .sem import nt as _nt
+        ps_ = shared.params(f)[1:]
+        wants = ['%s.%s(self, %s)' % (b, name, ', '.join(ps_))
+                 for b in ('LookupBaseFallback', 'LookupBase')] + \
+            ['super().%s(%s)' % (name, ', '.join(ps_)),
+             'super(VerifyingBase, self).%s(%s)' % (name, ', '.join(ps_))]
+        probs = []
+        ss_ = _N(_S(f))
+        for ps in ss_:
+            calls_ = [(i, _nt(e.r)) for i, e in enumerate(ps.events) if e.kind == 'call']
+            ver = [i for i, t in calls_ if t == 'self._verify()']
+            dele = [(i, t) for i, t in calls_ if ('.%s(' % name) in t and t != 'self._verify()']
+            if len(dele) != 1 or dele[0][1] not in wants:
+                probs.append('delegates as %s (required %s, parameters unchanged)'
+                             % ([t[:70] for i, t in dele], wants[0]))
+                continue
+            if not ver or ver[0] > dele[0][0]:
+                probs.append('the inherited %s runs without a preceding self._verify()' % name)
+            if _nt(ps.ret) != dele[0][1]:
+                probs.append('returns `%s` instead of the inherited result' % _nt(ps.ret)[:60])
+        if not ss_:
+            probs.append('no normal path')
+        rep.check(rule, site, not probs,
+                  '_verify() runs before the delegation to the inherited %s, whose '
+                  'result is returned, with the parameters unchanged' % name
+                  if not probs else {'problems': sorted(set(probs))[:3]},
+                  construct='verify-first', node=f)
     # indirect readers go through self._getcache (dynamic dispatch)
     for name, f in methods_of(lb).items():
         if name in ('__init__', 'changed') or name in direct:
